@@ -45,6 +45,9 @@ Obj = z3.DeclareSort("Obj")
 IntList = z3.Datatype("IntList")
 IntList.declare("mk", ("arr", z3.ArraySort(z3.IntSort(), z3.IntSort())), ("n", z3.IntSort()))
 IntList = IntList.create()
+ObjList = z3.Datatype("ObjList")
+ObjList.declare("mk", ("arr", z3.ArraySort(z3.IntSort(), Obj)), ("n", z3.IntSort()))
+ObjList = ObjList.create()
 SumF = z3.Function("Sum", z3.ArraySort(z3.IntSort(), z3.IntSort()), z3.IntSort(), z3.IntSort())
 Pow2 = z3.Function("pow2", z3.IntSort(), z3.IntSort())
 NONE_INT = z3.Int("NONE_as_int")
@@ -53,8 +56,16 @@ NONE_OBJ = z3.Const("NONE_obj", Obj)
 _fresh = itertools.count()
 
 
+_fresh_last = [-1]
+
+
 def fresh(prefix, sort):
-    return z3.Const(f"{prefix}!{next(_fresh)}", sort)
+    _fresh_last[0] = next(_fresh)
+    return z3.Const(f"{prefix}!{_fresh_last[0]}", sort)
+
+
+def _fresh_mark():
+    return _fresh_last[0]
 
 
 @dataclass
@@ -116,7 +127,7 @@ class FuncV:
     data: object = None
 
 
-ELEM_SORT = {"int": z3.IntSort(), "obj": Obj, "list[int]": IntList, "bool": z3.BoolSort()}
+ELEM_SORT = {"int": z3.IntSort(), "obj": Obj, "list[int]": IntList, "bool": z3.BoolSort(), "list[obj]": ObjList}
 
 
 def mk_list(prefix, elem):
@@ -130,6 +141,8 @@ def elem_value(lst: ListV, term):
         return BoolV(term)
     if lst.elem == "obj":
         return ObjV(term)
+    if lst.elem == "list[obj]":
+        return ListV(ObjList.arr(term), z3.If(ObjList.n(term) >= 0, ObjList.n(term), 0), "obj")
     return ListV(IntList.arr(term), IntList.n(term), "int")
 
 
@@ -152,6 +165,8 @@ def elem_term(lst_elem: str, v):
             return v.box
     if lst_elem == "list[int]" and isinstance(v, ListV) and v.elem == "int":
         return IntList.mk(v.arr, v.n)
+    if lst_elem == "list[obj]" and isinstance(v, ListV) and v.elem == "obj":
+        return ObjList.mk(v.arr, v.n)
     raise OutOfSubset(f"cannot store {type(v).__name__} in list[{lst_elem}]")
 
 
@@ -159,6 +174,13 @@ PairOI = z3.Datatype("PairOI")
 PairOI.declare("mk", ("o", Obj), ("i", z3.IntSort()))
 PairOI = PairOI.create()
 ELEM_SORT["pair"] = PairOI            # dict keys of the form (object, int)
+DO_HAS = z3.Function("dictobj.okey.has", Obj, Obj, z3.BoolSort())             # a dict {object: list of objects} held as an opaque object
+DO_ARR = z3.Function("dictobj.okey.arr", Obj, Obj, z3.ArraySort(z3.IntSort(), Obj))
+DO_LEN = z3.Function("dictobj.okey.len", Obj, Obj, z3.IntSort())
+DV_HAS = z3.Function("dictobj.oval.has", Obj, Obj, z3.BoolSort())             # a dict {object: object} held as an opaque object
+DV_VAL = z3.Function("dictobj.oval.val", Obj, Obj, Obj)
+DICTZIP = z3.Function("dict.zip", z3.ArraySort(z3.IntSort(), Obj), z3.IntSort(), Obj, Obj)
+TUP_LEN = z3.Function("tuple.len", Obj, z3.IntSort())
 DK_HAS = z3.Function("dictobj.has", Obj, z3.IntSort(), z3.BoolSort())
 DK_VAL = z3.Function("dictobj.val", Obj, z3.IntSort(), Obj)
 
@@ -174,6 +196,8 @@ def elem_kind_of(v):
         return "obj"
     if isinstance(v, ListV) and v.elem == "int":
         return "list[int]"
+    if isinstance(v, ListV) and v.elem == "obj":
+        return "list[obj]"
     raise OutOfSubset(f"unsupported list element {type(v).__name__}")
 
 
@@ -287,7 +311,7 @@ class Executor:
             return TupleV([self.make_param(f"{name}.{i}", t) for i, t in enumerate(_split_top(ty[6:-1]))])
         if ty.startswith("list["):
             inner = ty[5:-1]
-            ek = {"int": "int", "obj": "obj", "bool": "bool", "list[int]": "list[int]"}.get(inner)
+            ek = {"int": "int", "obj": "obj", "bool": "bool", "list[int]": "list[int]", "list[obj]": "list[obj]"}.get(inner)
             if ek is None:
                 raise OutOfSubset(f"type {ty}")
             return ListV(z3.Const(name, z3.ArraySort(z3.IntSort(), ELEM_SORT[ek])), z3.Int(name + "_len"), ek)
@@ -579,7 +603,7 @@ class Executor:
                 x, y = self.as_int(left), self.as_int(right)
                 out.append({ast.Lt: x < y, ast.LtE: x <= y, ast.Gt: x > y, ast.GtE: x >= y}[type(op)])
             elif isinstance(op, (ast.In, ast.NotIn)) and isinstance(right, ObjV) and self.c.get("boxed_dicts"):
-                t = DK_HAS(right.t, self.as_int(left))
+                t = DO_HAS(right.t, left.t) if isinstance(left, ObjV) else DK_HAS(right.t, self.as_int(left))
                 out.append(t if isinstance(op, ast.In) else z3.Not(t))
             elif isinstance(op, (ast.In, ast.NotIn)) and isinstance(right, DictV):
                 t = z3.Select(right.has, self.key_term(right, left))
@@ -690,6 +714,11 @@ class Executor:
             if not spec:
                 self.vc(st, "safety", f"safety.key#{ast.unparse(node)[:40]}", z3.Select(base.has, kt), "dict key present")
             return self.dict_get(base, kt)
+        if isinstance(base, ObjV) and self.c.get("boxed_dicts") and isinstance(idx, ObjV):
+            if not spec:
+                self.vc(st, "safety", f"safety.key#{ast.unparse(node)[:40]}", DO_HAS(base.t, idx.t), "dict key present")
+            n_ = DO_LEN(base.t, idx.t)
+            return ListV(DO_ARR(base.t, idx.t), z3.If(n_ >= 0, n_, 0), "obj")
         if isinstance(base, ObjV) and self.c.get("boxed_dicts") and isinstance(idx, (IntV, BoolV)):
             k = self.as_int(idx)
             if not spec:
@@ -758,6 +787,42 @@ class Executor:
             if name == "abs":
                 a = self.as_int(self.ev(node.args[0], st, spec))
                 return IntV(z3.If(a >= 0, a, -a))
+            if name == "zip" and len(node.args) == 1 and isinstance(node.args[0], ast.Starred):
+                rows = self.ev(node.args[0].value, st, spec)
+                if not (isinstance(rows, ListV) and rows.elem == "list[obj]"):
+                    raise OutOfSubset("zip(*rows) over something that is not a list of object lists")
+                # builtin contract (assumed, DESIGN 3.4): zip(*rows) has min(len(row)) tuples (none for no rows); tuple t holds rows[j][t] at position j
+                out = mk_list("zipstar", "obj")
+                j, t = fresh("zj", z3.IntSort()), fresh("zt", z3.IntSort())
+                rowlen = lambda jj: z3.If(ObjList.n(rows.arr[jj]) >= 0, ObjList.n(rows.arr[jj]), 0)
+                self.define(st, out.n >= 0)
+                self.define(st, z3.Implies(rows.n <= 0, out.n == 0))
+                self.define(st, z3.ForAll([j], z3.Implies(z3.And(0 <= j, j < rows.n), out.n <= rowlen(j))))
+                self.define(st, z3.Implies(rows.n > 0, z3.Exists([j], z3.And(0 <= j, j < rows.n, out.n == rowlen(j)))))
+                self.define(st, z3.ForAll([t, j], z3.Implies(z3.And(0 <= t, t < out.n),
+                                                             z3.And(DK_HAS(out.arr[t], j) == z3.And(0 <= j, j < rows.n),
+                                                                    z3.Implies(z3.And(0 <= j, j < rows.n), DK_VAL(out.arr[t], j) == ObjList.arr(rows.arr[j])[t]))),
+                                          patterns=[z3.MultiPattern(out.arr[t], rows.arr[j])]))
+                self.define(st, z3.ForAll([t, j], z3.Implies(z3.And(0 <= t, t < out.n, 0 <= j, j < rows.n), DK_VAL(out.arr[t], j) == ObjList.arr(rows.arr[j])[t]),
+                                          patterns=[DK_VAL(out.arr[t], j)]))
+                self.define(st, z3.ForAll([t], z3.Implies(z3.And(0 <= t, t < out.n), TUP_LEN(out.arr[t]) == z3.If(rows.n >= 0, rows.n, 0)), patterns=[out.arr[t]]))
+                return out
+            if (name == "dict" and len(node.args) == 1 and not node.keywords and isinstance(node.args[0], ast.Call) and isinstance(node.args[0].func, ast.Name)
+                    and node.args[0].func.id == "zip" and len(node.args[0].args) == 2 and not any(isinstance(x, ast.Starred) for x in node.args[0].args)):
+                ks, vs = (self.ev(x, st, spec) for x in node.args[0].args)
+                if not (isinstance(ks, ListV) and ks.elem == "obj" and isinstance(vs, ObjV)):
+                    raise OutOfSubset("dict(zip(keys, values)) over something that is not (list of objects, tuple)")
+                # builtin contract (assumed, DESIGN 3.4): the dict has exactly the keys keys[0..m), m = min(len(keys), len(values)); the value under keys[j] is
+                # values[j2] for SOME j2 >= j with keys[j2] == keys[j] (the last one; j2 == j when keys are distinct)
+                d = DICTZIP(ks.arr, ks.n, vs.t)           # a function of its inputs (no fresh constant: usable inside a comprehension element)
+                m = z3.If(ks.n <= TUP_LEN(vs.t), ks.n, TUP_LEN(vs.t))
+                j, j2, k = fresh("dj", z3.IntSort()), fresh("dj2", z3.IntSort()), fresh("dk", Obj)
+                self.define(st, z3.ForAll([k], DV_HAS(d, k) == z3.Exists([j], z3.And(0 <= j, j < m, ks.arr[j] == k)), patterns=[DV_HAS(d, k)]))
+                self.define(st, z3.ForAll([j], z3.Implies(z3.And(0 <= j, j < m), DV_HAS(d, ks.arr[j])), patterns=[ks.arr[j]]))
+                self.define(st, z3.ForAll([j], z3.Implies(z3.And(0 <= j, j < m),
+                                                          z3.Exists([j2], z3.And(j <= j2, j2 < m, ks.arr[j2] == ks.arr[j], DV_VAL(d, ks.arr[j]) == DK_VAL(vs.t, j2)))),
+                                          patterns=[ks.arr[j]]))
+                return ObjV(d)
             if name == "list" and len(node.args) == 1:
                 v = self.ev(node.args[0], st, spec)
                 if isinstance(v, ListV):
@@ -931,6 +996,10 @@ class Executor:
             if z3.is_int_value(lo_s) and lo_s.as_long() == 0:
                 return IntV(SumF(T, hi))
             return IntV(SumF(T, hi) - SumF(T, lo))
+        if name == "dictval" and len(a) == 2:      # value of an {object: object} dict held as an opaque object
+            return ObjV(DV_VAL(self.ev(a[0], st, True).t, self.ev(a[1], st, True).t))
+        if name == "haskey" and len(a) == 2:
+            return BoolV(DV_HAS(self.ev(a[0], st, True).t, self.ev(a[1], st, True).t))
         if name == "implies" and len(a) == 2:
             return BoolV(z3.Implies(self.truth(self.ev(a[0], st, True), st), self.truth(self.ev(a[1], st, True), st)))
         if name == "iff" and len(a) == 2:
@@ -1250,7 +1319,7 @@ class Executor:
             if f == "reversed":
                 cnt, el = self.iter_desc(node.args[0], st)
                 return cnt, (lambda i, s: el(cnt - 1 - i, s))
-            if f == "zip":
+            if f == "zip" and not any(isinstance(a, ast.Starred) for a in node.args):
                 descs = [self.iter_desc(a, st) for a in node.args]
                 cnt = descs[0][0]
                 for d in descs[1:]:
@@ -1441,6 +1510,7 @@ class Executor:
         sub.pc.append(z3.And(0 <= j, j < cnt))
         self.assign(g.target, el(j, sub), sub)
         nvc = len(self.vcs)
+        mark = _fresh_mark()
         if isinstance(node.elt, ast.ListComp):
             raise OutOfSubset("nested comprehension")
         elt = self.ev(node.elt, sub, spec)
@@ -1455,7 +1525,12 @@ class Executor:
         # skolem symbols created inside (slice arrays) are functions of j: existentially closed per j by construction of
         # fresh constants — sound only if they are used for this j alone; we therefore forbid extra facts here.
         if extra:
-            raise OutOfSubset("comprehension element needs auxiliary definitions (slice/div inside comprehension)")
+            # universally valid facts about the element (builtin contracts stated with functions of their inputs) may be quantified over j; anything
+            # mentioning a constant created while evaluating the element (a skolem that depends on j) may not
+            newc = [c for c in _free_consts(extra) if "!" in c.decl().name() and int(c.decl().name().rsplit("!", 1)[1]) > mark and not c.eq(j)]
+            if newc:
+                raise OutOfSubset("comprehension element needs auxiliary definitions (slice/div inside comprehension)")
+            body = z3.And(body, *extra)
         self.define(st, z3.ForAll([j], z3.Implies(z3.And(0 <= j, j < cnt), body), patterns=[out.arr[j]]))
         return out
 
@@ -1601,6 +1676,24 @@ def _sel(T, i):
     return z3.Select(T, i)
 
 
+def _free_consts(exprs):
+    """uninterpreted constants occurring free in the expressions (bound variables are de Bruijn indices, not constants)"""
+    seen, out = set(), {}
+    stack = list(exprs)
+    while stack:
+        e = stack.pop()
+        if e.get_id() in seen:
+            continue
+        seen.add(e.get_id())
+        if z3.is_quantifier(e):
+            stack.append(e.body())
+        elif z3.is_app(e):
+            if e.num_args() == 0 and e.decl().kind() == z3.Z3_OP_UNINTERPRETED:
+                out[e.get_id()] = e
+            stack.extend(e.children())
+    return list(out.values())
+
+
 def _collect_apps_deep(expr, decl, acc):
     """applications of decl anywhere in expr, also under binders"""
     seen = set()
@@ -1726,10 +1819,12 @@ def check_sum_lemmas(ms=10_000):
     # reindexing a finite universal statement from the other end (used where a contract enumerates "all units hold" from the last to the first)
     Pq = z3.Function("lemmaP", z3.IntSort(), z3.BoolSort())
     jq = z3.Int("jq")
-    out.append(("lemma.reindex", prove([z3.ForAll([jq], z3.Implies(z3.And(0 <= jq, jq < n), Pq(n - 1 - jq)))],
-                                       z3.ForAll([i], z3.Implies(z3.And(0 <= i, i < n), Pq(i))), ms)))
-    out.append(("lemma.reindex.converse", prove([z3.ForAll([i], z3.Implies(z3.And(0 <= i, i < n), Pq(i)))],
-                                                z3.ForAll([jq], z3.Implies(z3.And(0 <= jq, jq < n), Pq(n - 1 - jq))), ms)))
+    # proved by hand-instantiation (forall-intro on an arbitrary index i0, forall-elim of the premise at n-1-i0): leaving the instantiation to the
+    # solver's quantifier heuristics made this obligation flip to `unknown` under load
+    i0 = z3.Int("i0")
+    inst = lambda body_at, at: z3.Implies(z3.And(0 <= at, at < n), body_at)
+    out.append(("lemma.reindex", prove([inst(Pq(n - 1 - (n - 1 - i0)), n - 1 - i0), 0 <= i0, i0 < n], Pq(i0), ms)))
+    out.append(("lemma.reindex.converse", prove([inst(Pq(n - 1 - i0), n - 1 - i0), 0 <= i0, i0 < n], Pq(n - 1 - i0), ms)))
     # pow2: definition instances, then monotonicity by induction on the distance d: pow2(a) <= pow2(a+d) and (d >= 1 -> 2 pow2(a) <= pow2(a+d))
     a_, d = z3.Ints("a d")
     pdef = lambda t: z3.And(Pow2(t) >= 1, z3.Implies(t <= 0, Pow2(t) == 1), z3.Implies(t > 0, Pow2(t) == 2 * Pow2(t - 1)))
